@@ -32,7 +32,15 @@ func c17Inputs() []map[string]string {
 		bad.WriteString(fmt.Sprintf("  a-malformed-entry-number-%d:oops\n", i))
 	}
 	big := map[string]string{"food.yaml": bb.String(), "log.yaml": bl.String(), "bad.yaml": bad.String()}
-	return []map[string]string{small, mid, big}
+	// single output lines longer than the 4096-byte buffer of a bufio.Writer (such a write bypasses the buffer): names of
+	// 4200..5000 bytes as the first and as a later row of every report, in the log, the book, a note and a malformed line
+	la, lz, le := strings.Repeat("a", 5000), "z"+strings.Repeat("y", 4300), "e"+strings.Repeat("l", 4200)
+	long := map[string]string{
+		"food.yaml": la + "/in/the/book:\n  " + le + ": 2\n  cal: 1\nr1:\n  cal: 2\n",
+		"log.yaml":  "2021/01/24:\n  # " + lz + ": " + la + "\n  " + la + ": 1\n  r1: 1\n  " + lz + ": 2\n2021/01/25:\n  " + la + "/in/the/book: 2\n  m: 1\n",
+		"bad.yaml":  "x:\n  " + la + ":1\n  short: q\n  " + lz + ": q\n",
+	}
+	return []map[string]string{small, mid, big, long}
 }
 
 func checkC17(w *Worker) {
